@@ -34,9 +34,10 @@ def jobs(tier):
             replace=["parsec_check_IN_dependencies_with_counter"],
             functions=["parsec_update_deps_with_counter"], timeout=300, min_obligations=4),
         Job("counter.check_in", "h_counter.c", entry="h_check_in_counter", unwind=21,
-            defines=({"GATHER_MAX": 255} if full else {"SHAPE_NF": 4, "SHAPE_ND": 3, "GATHER_MAX": 7}),
+            defines=({"SHAPE_NF": 8, "SHAPE_ND": 4, "GATHER_MAX": 15} if full else {"SHAPE_NF": 4, "SHAPE_ND": 3, "GATHER_MAX": 7}),
             solver="kissat" if full else None,
-            bounded=("control-gather width <= 255 (sum equality over adder chains); shape complete 20 x 10" if full else
+            # measured: 20 x 10 with gather <= 255 does not finish in 1 h (sum equality over adder chains); 8 x 4 / 15: ~3 min
+            bounded=("task-class shape bounded to 8 input flows x 4 deps, control-gather width <= 15" if full else
                      "task-class shape bounded to 4 input flows x 3 deps, control-gather width <= 7"),
             functions=["parsec_check_IN_dependencies_with_counter"], timeout=to, min_obligations=2),
         Job("counter.lemma", "h_counter.c", entry="h_lemma_counter", unwind=2, functions=[], timeout=300, min_obligations=2),
@@ -52,6 +53,6 @@ MANIFEST = dict(
          "permitted by the rely (loop-free code: complete). The helper check_IN_* contracts are discharged for bounded task-class "
          "shapes in the quick tier (reported separately as bounded, not counted as proved) and for the code's full limits in the thorough tier.",
     note="Assumes rely/guarantee soundness and sequentially consistent atomics; assumes each flow is released once and exactly goal "
-         "releases happen (generated code, C02); guards stubbed as constants; counter-mode gather widths bounded (<=7 quick, <=255 thorough).",
+         "releases happen (generated code, C02); guards stubbed as constants; counter-mode check_IN shape and gather widths bounded (4x3/<=7 quick, 8x4/<=15 thorough; 20x10 did not finish in 1 h).",
     technique="function contracts + rely/guarantee ghost state on the real parsec.c, discharged by CBMC (SAT), callee replaced by contract via goto-instrument --dfcc",
     design_ref="DESIGN.md section 5, C07")
